@@ -90,3 +90,30 @@ Proof.
         apply (IH (S i) (S i') bal (Some i) (Some i') b n); [exact I | exact H].
     + exact (IH _ _ _ _ _ _ _ Hs H).
 Qed.
+
+(* ---- the implied-rate branch is taken on the components that are not exactly zero: a component left behind by a
+   commodity whose postings cancelled (which postings came first decides whether there is one) changes nothing ---- *)
+From LedgerV Require Import Proofs.XactProofs.
+From Coq Require Import Permutation.
+
+Lemma two_entries_ignores_zero_component z b :
+  is_realzero z = true -> two_entries (VBal (z :: b)) = two_entries (VBal b).
+Proof. intros Hz. cbn [two_entries filter]. rewrite Hz. reflexivity. Qed.
+
+Lemma two_entries_ignores_zero_components b b' :
+  filter (fun a => negb (is_realzero a)) b = filter (fun a => negb (is_realzero a)) b' ->
+  two_entries (VBal b) = two_entries (VBal b').
+Proof. intros H. cbn [two_entries]. rewrite H. reflexivity. Qed.
+
+Lemma two_entries_perm b b' : Permutation b b' -> two_entries (VBal b) = two_entries (VBal b').
+Proof.
+  intros HP. cbn [two_entries].
+  assert (HL : length (filter (fun a => negb (is_realzero a)) b) = length (filter (fun a => negb (is_realzero a)) b')).
+  { clear -HP. induction HP as [| x l l' _ IH | x y l | l l' l'' _ IH1 _ IH2]; cbn [filter].
+    - reflexivity.
+    - destruct (negb (is_realzero x)); cbn [length]; [f_equal|]; exact IH.
+    - destruct (negb (is_realzero x)), (negb (is_realzero y)); reflexivity.
+    - congruence. }
+  destruct (filter (fun a => negb (is_realzero a)) b) as [|x [|y [|z l]]],
+           (filter (fun a => negb (is_realzero a)) b') as [|x' [|y' [|z' l']]]; cbn [length] in HL; try reflexivity; discriminate.
+Qed.
